@@ -1,0 +1,126 @@
+//go:build verif
+
+package genetics
+
+import (
+	"context"
+
+	"github.com/yaricom/goNEAT/v4/neat"
+	"github.com/yaricom/goNEAT/v4/neat/network"
+)
+
+// This file exists only under the `verif` build tag. It gives the external verification harness access to the
+// package-private genetic operators and to read-only views of private state. It adds no behaviour.
+
+func VerifDuplicate(g *Genome, newId int) (*Genome, error) { return g.duplicate(newId) }
+
+func VerifMutateConnectSensors(g *Genome, innovations InnovationsObserver, opts *neat.Options) (bool, error) {
+	return g.mutateConnectSensors(innovations, opts)
+}
+
+func VerifMutateAddLink(g *Genome, innovations InnovationsObserver, generation int, opts *neat.Options) (bool, error) {
+	return g.mutateAddLink(innovations, generation, opts)
+}
+
+func VerifMutateAddNode(g *Genome, innovations InnovationsObserver, nodeIdGenerator network.NodeIdGenerator, opts *neat.Options) (bool, error) {
+	return g.mutateAddNode(innovations, nodeIdGenerator, opts)
+}
+
+// VerifMutateLinkWeights applies the weights mutator; cold selects the cold gaussian variant.
+func VerifMutateLinkWeights(g *Genome, power, rate float64, cold bool) (bool, error) {
+	if cold {
+		return g.mutateLinkWeights(power, rate, goldGaussianMutator)
+	}
+	return g.mutateLinkWeights(power, rate, gaussianMutator)
+}
+
+func VerifMutateRandomTrait(g *Genome, opts *neat.Options) (bool, error) {
+	return g.mutateRandomTrait(opts)
+}
+
+func VerifMutateLinkTrait(g *Genome, times int) (bool, error) { return g.mutateLinkTrait(times) }
+
+func VerifMutateNodeTrait(g *Genome, times int) (bool, error) { return g.mutateNodeTrait(times) }
+
+func VerifMutateToggleEnable(g *Genome, times int) (bool, error) { return g.mutateToggleEnable(times) }
+
+func VerifMutateGeneReEnable(g *Genome) (bool, error) { return g.mutateGeneReEnable() }
+
+func VerifMutateAllNonstructural(g *Genome, opts *neat.Options) (bool, error) {
+	return g.mutateAllNonstructural(opts)
+}
+
+func VerifMateMultipoint(g, og *Genome, genomeId int, fitness1, fitness2 float64) (*Genome, error) {
+	return g.mateMultipoint(og, genomeId, fitness1, fitness2)
+}
+
+func VerifMateMultipointAvg(g, og *Genome, genomeId int, fitness1, fitness2 float64) (*Genome, error) {
+	return g.mateMultipointAvg(og, genomeId, fitness1, fitness2)
+}
+
+func VerifMateSinglePoint(g, og *Genome, genomeId int) (*Genome, error) {
+	return g.mateSinglePoint(og, genomeId)
+}
+
+func VerifCompatibility(g, og *Genome, opts *neat.Options) float64 { return g.compatibility(og, opts) }
+
+func VerifNewGenomeRand(newId, in, out, n, maxHidden int, recurrent bool, linkProb float64, opts *neat.Options) (*Genome, error) {
+	return newGenomeRand(newId, in, out, n, maxHidden, recurrent, linkProb, opts)
+}
+
+// VerifNewEmptyPopulation creates a population without organisms or species with the given counters.
+func VerifNewEmptyPopulation(nextInnovNum int64, nextNodeId int32) *Population {
+	p := newPopulation()
+	p.nextInnovNum = nextInnovNum
+	p.nextNodeId = nextNodeId
+	return p
+}
+
+func VerifSpeciate(p *Population, ctx context.Context, organisms []*Organism) error {
+	return p.speciate(ctx, organisms)
+}
+
+// VerifInnovationsSnapshot returns a copy of the innovation records taken under the population mutex.
+func VerifInnovationsSnapshot(p *Population) []Innovation {
+	p.mutex.Lock()
+	defer p.mutex.Unlock()
+	res := make([]Innovation, len(p.innovations))
+	copy(res, p.innovations)
+	return res
+}
+
+func VerifCounters(p *Population) (nextInnovNum int64, nextNodeId int32) {
+	return p.nextInnovNum, p.nextNodeId
+}
+
+// VerifInnovationIsNode tells whether the innovation record is a node innovation (otherwise a link innovation).
+func VerifInnovationIsNode(inn Innovation) bool { return inn.innovationType == newNodeInnType }
+
+// VerifOrganismState is a read-only view of the private organism fields.
+type VerifOrganismState struct {
+	OriginalFitness           float64
+	ToEliminate               bool
+	IsChampion                bool
+	SuperChampOffspring       int
+	IsPopulationChampion      bool
+	IsPopulationChampionChild bool
+	HighestFitness            float64
+	MutationStructBaby        bool
+	MateBaby                  bool
+	HasCachedPhenotype        bool
+}
+
+func VerifOrganismView(o *Organism) VerifOrganismState {
+	return VerifOrganismState{
+		OriginalFitness:           o.originalFitness,
+		ToEliminate:               o.toEliminate,
+		IsChampion:                o.isChampion,
+		SuperChampOffspring:       o.superChampOffspring,
+		IsPopulationChampion:      o.isPopulationChampion,
+		IsPopulationChampionChild: o.isPopulationChampionChild,
+		HighestFitness:            o.highestFitness,
+		MutationStructBaby:        o.mutationStructBaby,
+		MateBaby:                  o.mateBaby,
+		HasCachedPhenotype:        o.orgPhenotype != nil,
+	}
+}
